@@ -408,8 +408,20 @@ let cmd_frames () =
     print_endline (String.concat " " (tl :: List.map (fun p ->
       Printf.sprintf "%d:%s:%s" (int_of_n p.pk_type) (hex_of_bytes p.pk_time) (let h = hex_of_bytes p.pk_payload in if h = "" then "-" else h)) ps)))
 
+(* write : lines "<hdr> <type> <value>" -> "OK <hex|->" | "ERR e"   (the MODEL of the library's writer) *)
+let cmd_write () =
+  iter_lines (fun l ->
+    match split_ws l with
+    | [hdr; t; vs] ->
+        let t = parse_type t in
+        (match lib_write (nat_of_int (int_of_string hdr)) t (parse_value t vs) with
+         | Ok bs -> Printf.printf "OK %s\n" (hexo bs)
+         | Err e -> Printf.printf "ERR %s\n" (err_name e))
+    | _ -> failwith ("write: bad line " ^ l))
+
 let () =
   match Sys.argv.(1) with
+  | "write" -> cmd_write ()
   | "frames" -> cmd_frames ()
   | "defs" -> cmd_defs ()
   | "version" -> cmd_version ()
